@@ -336,10 +336,15 @@ package main
 // frame is justified by the closed-world scan of the checker: sys.WriteFile has one caller).
 // ---------------------------------------------------------------------------------------------
 
+// a file switch replaces the tokenizer and nothing else: scope, offside stack, inference context and
+// type-definition context are the ones the previous file left (later files see earlier files' definitions)
 //@ func psSetNewSrc
-//@   trusted
+//@   props C07 C16
 //@   panics may
-//@   note abstract: builds the tokenizer for the new source; the first token scan may panic (diagnostic)
+//@   ensures only-the-tokenizer-is-replaced: result.scope == ps.scope && result.offsideCol == ps.offsideCol && result.tvc == ps.tvc && result.tdctx == ps.tdctx
+//@   ensures new-source: result.tkz.buf == src
+//@   inline-call newTkz#0
+//@   note newTkz is executed in place (over SMT strings); nextToken is used through its contract
 
 //@ func ParseAll
 //@   trusted
@@ -362,6 +367,7 @@ package main
 //@   ensures complete-output: suffixof(".fo", file) ==> glob(fsc) == store(old(glob(fsc)), path_join(path_dir(file), "gen_" + substr(path_base(file), 0, len(path_base(file)) - 3) + ".go"), T) && glob(fsr) == store(old(glob(fsr)), path_join(path_dir(file), "gen_" + substr(path_base(file), 0, len(path_base(file)) - 3) + ".go"), true)
 //@   ensures foi-writes-nothing: !suffixof(".fo", file) ==> glob(fsc) == old(glob(fsc)) && glob(fsr) == old(glob(fsr))
 //@   ensures state-kept: result == P
+//@   ensures C07 announced: glob(stdout) == old(glob(stdout)) + "transpile: " + file + "\n"
 //@   at after call RootStmtsToGo#0: T = ret
 //@   at after call frt.Destr2#1: P = ret
 
@@ -2243,3 +2249,19 @@ package main
 //@   requires carve-out-F10-acyclic-resolver: resolver_acyclic(rsv)
 //@   panics may
 //@   decreases tvrank(rsv, tv.Name)
+
+// one parse state is folded over the argument list in the order given: each argument is taken up (and
+// announced) after all the arguments before it, whatever its extension
+//@ func initParse
+//@   trusted
+//@   panics may
+//@   note abstract: the initial parse state (empty root scope, offside stack [0], fresh contexts)
+
+//@ func transpileFiles
+//@   props C07
+//@   modifies glob:stdout glob:fsr glob:fsc
+//@   panics may
+//@   ensures arguments-in-the-order-given: glob(stdout) == old(glob(stdout)) + announce_log(files, len(files))
+//@   inline-call slice.Fold#0
+//@   loop slice.Fold#0/0 index i:
+//@     invariant announced-so-far: glob(stdout) == old(glob(stdout)) + announce_log(files, i)
